@@ -129,7 +129,7 @@ CLAIMED = {
         engine="E3-history-machines",
         technique="TLA+ model of per-object memoize caches over query/derivation/settings histories (key discipline from the live classes), exhaustive TLC histories replayed with per-step cache-validity checks",
         text=("spec/LOCache.tla: objects (a base operator and operators derived from it) with exact dense denotations and a model of their "
-              "memoize caches; alphabet of 19 queries (incl. the probe-vector Lanczos inverse root), 8 derivations, 2 settings toggles and return-to-parent, plus the "derived-then-parent" family of five-step histories emitted directly (FamilyStep). The table of which cached methods "
+              "memoize caches; alphabet of 19 queries (incl. the probe-vector Lanczos inverse root), 8 derivations, 2 settings toggles and return-to-parent, plus the derived-then-parent family of five-step histories emitted directly (FamilyStep). The table of which cached methods "
               "honour their arguments is extracted from the live class and passed to TLC, which checks CacheOwned / CacheValid / DenStable over "
               "all histories to the depth bound (an argument-ignoring Cholesky cache is rejected - non-vacuity) and prints every history with the "
               "exact matrix of every object. The replay runs each history on one real object (12 PD instance classes), judges every answer "
